@@ -204,7 +204,8 @@ def autoKeys (f : Field V) : List Str × Bool :=
   | .choice => (remove (S "metavar") (base ++ [S "type", S "choices"]), false)
   | t =>
     if t == .optional || f.default.isLiteralNone then
-      (base ++ [S "required", S "type", S "nargs"], false)
+      -- since 302ccc9 `required=False` is only written for options (argparse rejects it for positionals)
+      (base ++ (if !f.positional then [S "required"] else []) ++ [S "type", S "nargs"], false)
     else match t with
       | .union => (base ++ [S "type"], false)
       | .enum => (base ++ [S "choices", S "type"], false)
@@ -380,9 +381,15 @@ def docLoop : List Str → Option Nat → Str → List (Str × Str) → DocOut
 
 def parseArgsDoc (doc : Str) : DocOut := docLoop (splitOnChar '\n' doc) none [] []
 
-/-- `{v for k, v in entries.items() if k.startswith(name)}` as a duplicate-free list -/
+/-- `k.split()[:1]`: the first whitespace-delimited word of a key (`none` = `[]`, no word) -/
+def firstWord (k : Str) : Option Str :=
+  let s := lstripWs k
+  if s.isEmpty then none else some (s.takeWhile (fun c => !isSpace c))
+
+/-- `{v for k, v in entries.items() if k.split()[:1] == [name]}` as a duplicate-free list
+    (partial.py:174-176 since f3cc715: the entry of a parameter is `name: …` or `name (type): …`) -/
 def helpEntries (entries : List (Str × Str)) (name : Str) : List Str :=
-  dedup ((entries.filter (fun e => startsWith e.1 name)).map (·.2))
+  dedup ((entries.filter (fun e => firstWord e.1 == some name)).map (·.2))
 
 /-- partial.py:174-180: `init_help_entries or class_help_entries`, then `set.pop()`.
     `none` = two or more distinct candidates (which one `pop` returns depends on the hash seed). -/
@@ -518,16 +525,36 @@ def dictUpdate : List (Str × V) → List (Str × V) → List (Str × V)
       dictUpdate (d.map (fun (k', v') => if k' == k then (k', v) else (k', v'))) rest
     else dictUpdate (d ++ [(k, v)]) rest
 
-/-- `self(*args, **kwargs)` ⇒ `_target_(*args, **{fields…, **kwargs})` -/
-def partialCall (fieldVals : List (Str × V)) (args : List V) (kwargs : List (Str × V)) : Call V :=
-  { args := args, kwargs := dictUpdate fieldVals kwargs }
+/-- the loop added by 8ca70f1 (partial.py:310-324): walk the target's leading positional-only
+    parameters; the first `given` of them are covered by the caller's `*args`; each further one whose
+    name is a key of the keyword dict is popped and passed positionally; the walk stops at the first
+    parameter that is not positional-only or has no value. -/
+def movePositional : List (Param V) → Nat → List (Str × V) → List V × List (Str × V)
+  | [], _, d => ([], d)
+  | p :: ps, given, d =>
+    if !(p.kind == .posOnly) then ([], d)
+    else match given with
+      | n + 1 => movePositional ps n d
+      | 0 => match d.lookup p.name with
+        | none => ([], d)
+        | some v =>
+          let r := movePositional ps 0 (d.filter (fun e => !(e.1 == p.name)))
+          (v :: r.1, r.2)
+
+/-- `self(*args, **kwargs)` ⇒ `_target_(*args, *moved, **rest)` where `{fields…, **kwargs}` is split
+    by `movePositional` along the target's signature `sig` -/
+def partialCall (sig : List (Param V)) (fieldVals : List (Str × V)) (args : List V)
+    (kwargs : List (Str × V)) : Call V :=
+  let r := movePositional sig args.length (dictUpdate fieldVals kwargs)
+  { args := args ++ r.1, kwargs := r.2 }
 
 /-- parse of the derived class (a parameter: outcome of the equivalent plain parse), then the call -/
-def partialRun (parse : ParseOut V) (args : List V) (kwargs : List (Str × V)) : MainOut V :=
+def partialRun (sig : List (Param V)) (parse : ParseOut V) (args : List V) (kwargs : List (Str × V)) :
+    MainOut V :=
   match parse with
   | .exit c => .exit c
   | .raise e => .raise e
-  | .ok vals => .call (partialCall vals args kwargs)
+  | .ok vals => .call (partialCall sig vals args kwargs)
 
 /-! ## `_cache_when_possible`  (partial.py:61-77) -/
 
@@ -542,7 +569,9 @@ structure CacheKey where
   target : Nat
   ignore : IgnoreForm
   frozen : Option Bool
-  defaults : List (Str × Str)     -- (name, canonical value) in keyword order
+  /-- (name, value) in keyword order. Since 4d0f313 the cache is `lru_cache(typed=True)`: the value
+      is the *typed* value (`1`, `1.0`, `True` are three different values) -/
+  defaults : List (Str × Str)
   hashableDefaults : Bool := true
   deriving DecidableEq, Repr
 
